@@ -5,7 +5,7 @@ set -e
 cd "$(dirname "$0")"
 export GOFLAGS=-mod=mod GOPROXY=off GOSUMDB=off GOTOOLCHAIN=local
 mkdir -p build
-cp /repo/go.sum go/go.sum
+
 python3 - <<'PY'
 import sys
 sys.path.insert(0, ".")
